@@ -357,12 +357,14 @@ class HierDictDocument(DictDocument):
                     subinst.append(
                             self._from_dict_value(ctx, k, member, a, validator))
 
+                frequencies[k] += len(v)
+
             else:
                 subinst = self._from_dict_value(ctx, k, member, v, validator)
 
-            inst._safe_set(k, subinst, member, member_attrs)
+                frequencies[k] += 1
 
-            frequencies[k] += 1
+            inst._safe_set(k, subinst, member, member_attrs)
 
         attrs = self.get_cls_attrs(cls)
         if validator is self.SOFT_VALIDATION and attrs.validate_freq:
